@@ -5,6 +5,7 @@ import (
 	"fmt"
 	"os"
 	"path/filepath"
+	"strings"
 
 	"github.com/dustin/go-humanize"
 	"github.com/go-gts/flags"
@@ -40,6 +41,12 @@ func cacheListFunc(ctx *flags.Context) error {
 		}
 
 		if info.IsDir() {
+			return nil
+		}
+
+		if strings.Contains(info.Name(), ".tmp-") {
+			// an entry that is being written, or that a run which died left
+			// behind: not an entry yet
 			return nil
 		}
 
